@@ -75,6 +75,7 @@ class Report(object):
         self.impacted = []          # impacted interface lines (leaf mode), stripped
         self.flags = set()
         self.unparsed = []
+        self.orphans = []           # [D]/[A]/[C] entries printed outside any announced section
         self._parse()
 
     def _parse(self):
@@ -167,6 +168,9 @@ class Report(object):
                     self.sections[cur_section][1].append(cur_entry)
                     cur_leaf = None
                     continue
+                if m and cur_leaf is None and cur_entry is None:
+                    # an interface entry that belongs to no announced section (also kept in `unparsed`: fail closed)
+                    self.orphans.append(line.strip())
                 if cur_leaf is not None:
                     cur_leaf[1].append(line)
                     continue
